@@ -62,8 +62,8 @@ def what_of(rec, clauses, s):
 
 def run(c):
     th = c.thorough()
-    c.rule = ("model: every CoPatterns matrix (all digraph masks <= 4 nodes quick / 5 thorough, all symmetric masks <= 6 "
-              "quick / 7 thorough, value modes incl. positive-only rows, eps in {1/4,1/2}, omega in {1/2,2/3,1}, truncation "
+    c.rule = ("model: every CoPatterns matrix (all digraph masks <= 4 nodes quick / 5 thorough, all symmetric masks <= 5 "
+              "quick / 6 thorough, value modes incl. positive-only rows, eps in {1/4,1/2}, omega in {1/2,2/3,1}, truncation "
               "in {off,1/4,1/2} with exact ties) through the transcribed plain/pointwise aggregation, tentative "
               "prolongation, smoothed aggregation and Ruge-Stuben; code: the same enumerated spaces (thinned by a "
               "seed-dependent stride in the quick tier) plus seeded random graphs (to 120 / 300 nodes), block sizes 1..3, "
@@ -109,13 +109,12 @@ def run(c):
     AGINV = "TypeInv PartitionInv FlagsInv SymInv"
     jobs = [
         # transcriptions of the code as it is meant to be (repaired variants); longest first
-        lambda: model("RugeStubenModel", "sym6", N=6, Sym="TRUE", Modes="{21}", EpsDens="{4}", TruncDens="{2}", invariants=RSINV, workers=4),
         lambda: model("RugeStubenModel", "di4", N=4, Modes="{22}" if not th else M4, invariants=RSINV, workers=3),
-        lambda: model("RugeStubenModel", "sym5", N=5, Sym="TRUE", Modes="{15, 21, 22}" if not th else ALL, invariants=RSINV, workers=3),
-        lambda: model("SmoothedModel", "di4", N=4, Modes="{7, 22}" if not th else M4, OmegaCodes="{23}", workers=3),
+        lambda: model("RugeStubenModel", "sym5", N=5, Sym="TRUE", Modes="{21, 22}" if not th else ALL, invariants=RSINV, workers=3),
+        lambda: model("SmoothedModel", "di4", N=4, Modes="{7}" if not th else M4, OmegaCodes="{23}", workers=3),
         lambda: model("AggregatesModel", "di4", N=4, Modes=NOSIGN, invariants=AGINV, workers=2),
         lambda: model("RugeStubenModel", "di3", N=3, Modes=M4, invariants=RSINV + " RunInv", workers=2),
-        lambda: model("SmoothedModel", "di3", N=3, OmegaCodes="{12, 23, 11}", workers=2),
+        lambda: model("SmoothedModel", "di3", N=3, OmegaCodes="{12, 23, 11}" if th else "{23, 11}", workers=2),
         lambda: model("SmoothedModel", "kron3x2", N=3, BS=2, Modes="{7, 22}", OmegaCodes="{12}", EpsDens="{4}"),
         lambda: model("BlockLiftModel", "kron3x2", N=3, BS=2, Modes="{0, 7, 13, 18}", workers=2),
         lambda: model("AggregatesModel", "sym5", N=5, Sym="TRUE", Modes=NOSIGN, invariants=AGINV),
@@ -129,6 +128,8 @@ def run(c):
     ]
     if th:
         jobs = [
+            # all 32768 symmetric 6-node graphs through Ruge-Stuben (about 300 CPU s): thorough only since the quick tier has to fit 3 minutes
+            lambda: model("RugeStubenModel", "sym6", N=6, Sym="TRUE", Modes="{21}", EpsDens="{4}", TruncDens="{2}", invariants=RSINV, workers=5),
             lambda: model("AggregatesModel", "di5", N=5, Modes="{19}", invariants=AGINV, workers=5),
             lambda: model("RugeStubenModel", "sym6more", N=6, Sym="TRUE", Modes="{15, 22}", EpsDens="{4}", TruncDens="{0, 2}", invariants=RSINV, workers=5),
         ] + jobs + [
@@ -145,12 +146,12 @@ def run(c):
         ("enum1", ["enum", 1, 0, "plasSer", "all", 1], None),
         ("enum2", ["enum", 2, 0, "plasSer", "all", 1], 1200),
         ("enum3-agg", ["enum", 3, 0, "pl", NOSIGN.strip("{}").replace(" ", ""), 1], 1200),
-        ("enum3", ["enum", 3, 0, "asSer", "all", S or 2], 1200),
-        ("enum4-agg", ["enum", 4, 0, "p", "1,7,13,19,0", S or 3], 2000),
-        ("enum4", ["enum", 4, 0, "asr", "7,9,15,22", S or 10], 1000),
+        ("enum3", ["enum", 3, 0, "asSer", "all", S or 3], 1200),
+        ("enum4-agg", ["enum", 4, 0, "p", "1,7,13,19,0", S or 5], 2000),
+        ("enum4", ["enum", 4, 0, "asr", "7,9,15,22", S or 16], 1000),
         ("enum4-block", ["enum", 4, 0, "lS", "7,22", S or 16], 300),
-        ("sym5", ["enum", 5, 1, "psr", "all", 2 if th else 10], 1200),
-        ("sym6", ["enum", 6, 1, "r", "19,21", 2 if th else 16], 800),
+        ("sym5", ["enum", 5, 1, "psr", "all", 2 if th else 16], 1200),
+        ("sym6", ["enum", 6, 1, "r", "19,21", 2 if th else 32], 800),
         ("random", ["random"], 40),
         ("nullspace", ["ns"], 60),
         ("poison", ["poison"], 200),
